@@ -1,6 +1,7 @@
 package l2
 
 import (
+	"os"
 	"bytes"
 	"context"
 	"fmt"
@@ -196,7 +197,15 @@ func (ch *Chain) hookBytes(h M) []byte {
 	case "none":
 		return nil
 	case "undecodable":
-		return []byte("\xff\xfe this is not a transaction \x00\x01")
+		out := []byte("\xff\xfe this is not a transaction \x00\x01")
+		pad := 0
+		if v, ok := h["pad"]; ok && v != nil {
+			pad = int(absx.Int(v))
+		}
+		for n := pad; len(out) < n; {
+			out = append(out, 0xff)
+		}
+		return out
 	case "badSig", "msgs":
 		name := absx.Str(h["signer"])
 		priv := c.PrivKey(name)
@@ -468,6 +477,16 @@ func (ch *Chain) Exec(e M) Outcome {
 	panic("unknown event type " + ty)
 }
 
+type logMeter struct {
+	storetypes.GasMeter
+	log *[]string
+}
+
+func (m logMeter) ConsumeGas(amount storetypes.Gas, descriptor string) {
+	*m.log = append(*m.log, fmt.Sprintf("%s:%d", descriptor, amount))
+	m.GasMeter.ConsumeGas(amount, descriptor)
+}
+
 // hookGasWithinBound measures, on branches of the current state, the gas the handler charges for the hook of
 // deposit e: gas(handler with the hook) - gas(same deposit with a hook that fails before running anything, or
 // with no hook when the hook succeeds).  The difference must not exceed the configured HookMaxGas (C07).
@@ -478,8 +497,14 @@ func (ch *Chain) hookGasWithinBound(e M) bool {
 	}
 	gasOf := func(ev M) (uint64, bool, bool) {
 		fork := ch.Fork()
+		msg := fork.toMsg(ev) // built before the meter is installed: signing the hook transaction reads the signer's account
 		fork.Ctx = fork.Ctx.WithGasMeter(storetypes.NewGasMeter(500_000_000))
-		r := Deliver(fork.F, fork.Ctx, fork.toMsg(ev))
+		if os.Getenv("VERIF_DEBUG_GAS") != "" {
+			var lg []string
+			fork.Ctx = fork.Ctx.WithGasMeter(logMeter{storetypes.NewGasMeter(500_000_000), &lg})
+			defer func() { fmt.Fprintf(os.Stderr, "GASLOG %v %v\n", absx.Map(ev["hook"])["kind"], lg) }()
+		}
+		r := Deliver(fork.F, fork.Ctx, msg)
 		if !r.OK {
 			return 0, false, false
 		}
@@ -507,7 +532,18 @@ func (ch *Chain) hookGasWithinBound(e M) bool {
 	if err != nil {
 		panic(err)
 	}
-	const slack = 3000 // event attribute / reason string differences between the two runs
+	const slack = 0 // the two runs differ only in what the hook meter charged: nothing else in the handler depends on the hook
+	if os.Getenv("VERIF_DEBUG_GAS") != "" {
+		b2 := M{}
+		for k, v := range e {
+			b2[k] = v
+		}
+		b2["hook"] = M{"kind": "none", "signer": "", "msgs": []any{}}
+		g2, _, _ := gasOf(b2)
+		b2["hook"] = M{"kind": "undecodable", "signer": "", "msgs": []any{}, "pad": int64(len(ch.hookBytes(hook)))}
+		g3, _, _ := gasOf(b2)
+		fmt.Fprintf(os.Stderr, "GAS with=%d without=%d max=%d success=%v hook=%v nohook=%d badsig=%d\n", with, without, p.HookMaxGas, success, hook["kind"], g2, g3)
+	}
 	return with <= without+p.HookMaxGas+slack
 }
 
